@@ -29,10 +29,10 @@ func TestMain(m *testing.M) {
 var runStarted atomic.Int64
 
 // watchdog (a real goroutine outside every bubble) ends the process when a single simulated run makes no progress
-// for two wall-clock minutes - a task blocked on a real lock that the scheduler cannot see - and prints the stacks.
+// for five wall-clock minutes - a task blocked on a real lock that the scheduler cannot see - and prints the stacks.
 // The orchestrator reports that as a harness error (exit 2), never as a violation.
 func watchdog() {
-	limit := time.Duration(envInt("VERIF_RUN_WALL_S", 120)) * time.Second
+	limit := time.Duration(envInt("VERIF_RUN_WALL_S", 300)) * time.Second
 	for {
 		time.Sleep(2 * time.Second)
 		st := runStarted.Load()
